@@ -18,6 +18,9 @@ def sels_for(info):
     return s
 
 
+# beyond the small grid: lengths around every power of two up to 8 KiB (block-wise fast paths, unrolled loops,
+# prefetch thresholds a maintainer might add) - few cases, so cheap even through the Lean model
+BIG_LENS = [159, 160, 161, 191, 192, 193, 255, 256, 257, 511, 512, 513, 1000, 1023, 1024, 1025, 2047, 2048, 2049, 4095, 4096, 4097, 8191, 8192, 8193]
 LENS_Q = list(range(0, 70)) + [95, 96, 97, 127, 128, 129, 130]
 LENS_T = list(range(0, 131)) + [159, 160, 161, 255, 256, 257, 1000, 1023, 1024, 1025, 4096]
 
@@ -42,9 +45,17 @@ def gen_c01(r, tier, info):
                     j = b.op(f"hash portable {w} {kstr(key)} {hexbytes(data)}")
                     b.eq(i, j, "hash is not a pure function of (key, bytes, width)")
                 cases.append(b)
+    for n in BIG_LENS + [r.randrange(131, 20000) for _ in range(3 if tier == "quick" else 40)]:
+        w = r.choice((64, 128, 256))
+        key = rkey(r)
+        data = rbytes(r, n)
+        b = B(f"c01-big-{n}-{w}", [f"len%32={n % 32}", "pk=big", f"w{w}"])
+        i = b.op(f"hash portable {w} {kstr(key)} {hexbytes(data)}")
+        b.spec = (i, f"spec {w} {kstr(key)} {hexbytes(data)}")
+        cases.append(b)
     # streamed through append + checkpoint exposure of internal state
     for _ in range(60 if tier == "quick" else 600):
-        n = r.choice(lens)
+        n = r.choice(lens + BIG_LENS[:12])
         data = rbytes(r, n)
         cases.append(gen.streamed(r, "portable", split_chunks(r, data), r.choice((64, 128, 256)), rkey(r)))
     return cases
@@ -54,7 +65,8 @@ def gen_c01(r, tier, info):
 def gen_c02(r, tier, info):
     cases = []
     sels = [s for s in sels_for(info) if s != "portable"]
-    lens = (list(range(0, 66)) + [95, 96, 97, 128, 129]) if tier == "quick" else LENS_T
+    lens = (list(range(0, 66)) + [95, 96, 97, 128, 129] + BIG_LENS + [r.randrange(131, 20000) for _ in range(2)]) if tier == "quick" \
+        else LENS_T + BIG_LENS + [r.randrange(131, 40000) for _ in range(20)]
     reps = 1 if tier == "quick" else 3
     for n in lens:
         for _ in range(reps):
@@ -115,7 +127,7 @@ def gen_c05(r, tier, info):
             cases += gen.grid(r, s, fills, r.sample(gen.CHUNK_LENS, 12), force=True, entry="mix", std=std)
     for _ in range(150 if tier == "quick" else 3000):
         s = r.choice(sels)
-        data = rbytes(r, r.choice((0, 1, 31, 32, 33, 63, 64, 65, 100, 129, 200)))
+        data = rbytes(r, r.choice((0, 1, 31, 32, 33, 63, 64, 65, 100, 129, 200, 200, 256, 300, 511, 512, 1024, 1500, 4097)))
         parts = split_chunks(r, data, r.randrange(0, 9))
         cases.append(gen.streamed(r, s, parts, r.choice((64, 128, 256)), rkey(r), entry="mix", force=True, std=std))
     # many tiny appends into one packet
